@@ -36,6 +36,9 @@ func TestMain(m *testing.M) {
 type c18Case struct {
 	Cfg lsw.Config `json:"cfg"`
 	Ops []lsw.Op   `json:"ops"` // primary ops plus "vfs-open", "vfs-poll", "vfs-time" (N selects the instant), "vfs-reset"
+	// TinyCache gives the VFS file a two-page cache, so that nearly every compared page is fetched from the replica
+	// through the page index (an entry that still points at a retired level-0 file cannot hide behind a cached copy).
+	TinyCache bool `json:"tiny_cache,omitempty"`
 }
 
 func genC18(t *rapid.T) c18Case {
@@ -136,7 +139,7 @@ func genC18(t *rapid.T) c18Case {
 		ops = append(ops, lsw.Op{K: "vfs-open"})
 	}
 	ops = append(ops, lsw.Op{K: "syncwait"}, lsw.Op{K: "vfs-reset"}, lsw.Op{K: "vfs-poll"})
-	return c18Case{Cfg: cfg, Ops: ops}
+	return c18Case{Cfg: cfg, Ops: ops, TinyCache: rapid.Bool().Draw(t, "tinyCache")}
 }
 
 func maskHdr(b []byte) []byte {
@@ -199,6 +202,25 @@ func execC18(c c18Case) (res core.Result) {
 		res.NonTrivial = shrinkSeen || polledAfterCompaction
 	}()
 	// compare checks the VFS view against an ordinary restore
+	// l1Cursor mirrors how the VFS file seeds its level-1 cursor when it builds its index from a restore plan (open, time
+	// travel, reset): the highest level-1 TXID not beyond its position, or the position itself when there is none.
+	var l1Cursor ltx.TXID
+	youngPage := false
+	setCursor := func() {
+		pos := vf.Pos().TXID
+		l1Cursor = 0
+		// the files of the plan that ends at the position the index was just built for (same listing, same planner)
+		if plan, err := litestream.CalcRestorePlan(ctx, file.NewReplicaClient(w.ReplicaDir), pos, time.Time{}, discard); err == nil {
+			for _, info := range plan {
+				if info.Level == 1 && info.MaxTXID > l1Cursor {
+					l1Cursor = info.MaxTXID
+				}
+			}
+		}
+		if l1Cursor == 0 {
+			l1Cursor = pos
+		}
+	}
 	var ttImage []byte // the timestamp restore the current time-travel view was compared with when it was installed
 	compare := func(i int, o lsw.Op, timeTravel *time.Time) *core.Violation {
 		pos := vf.Pos().TXID
@@ -239,6 +261,13 @@ func execC18(c c18Case) (res core.Result) {
 				// the commit without rewriting the whole database
 				v.Shapes = append(v.Shapes, "vfs-partial-shrink")
 			}
+			if oracle == "page-read-error" && youngPage {
+				// shape: the newest version of the failing page (at the VFS position) was written by a TXID that a
+				// level-1 file covers which BEGINS at or before the level-1 cursor the index was built with - the poller
+				// lists level 1 from that cursor + 1 by MinTXID and never sees such a file - and the level-0 file of
+				// that TXID has been retired
+				v.Shapes = append(v.Shapes, "vfs-young-replica-l1-never-polled")
+			}
 			return v
 		}
 		sz, err := vf.FileSize()
@@ -256,6 +285,7 @@ func execC18(c c18Case) (res core.Result) {
 			}
 			n, err := vf.ReadAt(buf, int64(pg)*int64(ps))
 			if err != nil || n != ps {
+				youngPage = c18YoungPage(w, uint32(pg+1), pos, l1Cursor)
 				return mk("page-read-error", "ReadAt(page %d) = %d, %v", pg+1, n, err)
 			}
 			want := R[pg*ps : (pg+1)*ps]
@@ -287,12 +317,16 @@ func execC18(c c18Case) (res core.Result) {
 			}
 			vf = litestream.NewVFSFile(file.NewReplicaClient(w.ReplicaDir), "c18.db", discard)
 			vf.PollInterval = time.Hour // the background ticker never fires; polls are issued by the harness
+			if c.TinyCache {
+				vf.CacheSize = 2 * c.Cfg.PageSize
+			}
 			if err := vf.Open(); err != nil {
 				res.Violation = &core.Violation{Oracle: "open-error", Msg: fmt.Sprintf("step %d: VFSFile.Open: %v", i, err)}
 				vf = nil
 				return res
 			}
 			pollAteShrink = false
+			setCursor()
 			if shrinkNotFullRewrite(w, 0, vf.Pos().TXID) {
 				shrinkSeen = true
 			}
@@ -338,6 +372,13 @@ func execC18(c c18Case) (res core.Result) {
 				_ = vf.VerifPoll(ctx)
 				res.Labels = append(res.Labels, "poll-during-time-travel")
 				if v := compare(i, o, curT); v != nil {
+					if v.Oracle == "page-read-error" {
+						// the files the historical view was built from were compacted and retired after it was installed
+						// (level-0 retention is 1 ns in these cases): the view cannot be served any more, which is not what
+						// this comparison is about (the view must not MOVE)
+						res.Labels = append(res.Labels, "time-travel-files-retired")
+						continue
+					}
 					res.Violation = v
 					return res
 				}
@@ -392,6 +433,7 @@ func execC18(c c18Case) (res core.Result) {
 			res.Labels = append(res.Labels, "time-travel")
 			tt := T
 			curT = &tt
+			setCursor()
 			pollAteShrink = false
 			if v := compare(i, o, &T); v != nil {
 				res.Violation = v
@@ -405,6 +447,7 @@ func execC18(c c18Case) (res core.Result) {
 				continue
 			}
 			curT = nil
+			setCursor()
 			pollAteShrink = false
 			if v := compare(i, o, nil); v != nil {
 				res.Violation = v
@@ -431,6 +474,52 @@ func execC18(c c18Case) (res core.Result) {
 	}
 	_ = lastChecked
 	return res
+}
+
+// c18YoungPage decides the "young replica" shape for one page: the TXID that last wrote the page (at or before pos)
+// is found in the archived level-0 files; the shape holds when that TXID's level-0 file is gone from the replica and
+// the level-1 file covering it begins at or before the cursor.
+func c18YoungPage(w *lsw.World, pgno uint32, pos, cursor ltx.TXID) bool {
+	var last ltx.TXID
+	ents, _ := os.ReadDir(w.ArchiveDir)
+	for _, e := range ents {
+		mn, mx, err := ltx.ParseFilename(e.Name())
+		if err != nil || mn != mx || mx > pos || mx <= last {
+			continue
+		}
+		f, err := os.Open(filepath.Join(w.ArchiveDir, e.Name()))
+		if err != nil {
+			continue
+		}
+		dec := ltx.NewDecoder(f)
+		if dec.DecodeHeader() == nil {
+			buf := make([]byte, dec.Header().PageSize)
+			for {
+				var hdr ltx.PageHeader
+				if err := dec.DecodePage(&hdr, buf); err != nil {
+					break
+				}
+				if hdr.Pgno == pgno {
+					last = mx
+					break
+				}
+			}
+		}
+		f.Close()
+	}
+	if last == 0 {
+		return false
+	}
+	l0There, covered := false, false
+	for _, f := range lsw.ListLTX(w.ReplicaDir) {
+		if f.Level == 0 && f.Min <= last && last <= f.Max {
+			l0There = true
+		}
+		if f.Level == 1 && f.Min <= cursor && f.Min <= last && last <= f.Max {
+			covered = true
+		}
+	}
+	return !l0There && covered
 }
 
 func TestProp_C18(t *testing.T) {
